@@ -18,9 +18,12 @@ type FilterPlan struct {
 	Behaviours []PeerBehaviour
 	Reorgs     int    // reorganisations injected between filter rounds
 	ReorgAt    string // pause point at which one reorg is injected INSIDE a round ("" = none)
-	FilterCPs  []int32
-	FalseCP    bool // the injected filter checkpoint contradicts every peer
-	Growth     int  // blocks the honest chain grows by between rounds
+	// BoundaryFromGenesis: a boundary placement is armed also in the round
+	// that starts from the genesis filter header.
+	BoundaryFromGenesis bool `json:",omitempty"`
+	FilterCPs           []int32
+	FalseCP             bool // the injected filter checkpoint contradicts every peer
+	Growth              int  // blocks the honest chain grows by between rounds
 	// Legacy: after the initial header sync the hash->height index entries
 	// are moved to the pre-sub-bucket location (an upgraded installation's
 	// database; see Stores.LegacyIndex).
@@ -82,6 +85,9 @@ type FilterSession struct {
 	OnStep func(fs *FilterSession, st *StepObs)
 
 	injDone chan struct{} // closed when an injected concurrent reorg finished
+	// AtBoundary, when set, runs once per at-tip round at the boundary call
+	// Plan.ReorgAt names ("store.read#k", "net.query#k").
+	AtBoundary func()
 
 	// Installed holds the hard-coded filter-header checkpoints installed for
 	// this session (height -> value), nil if none.
@@ -358,6 +364,22 @@ func (fs *FilterSession) Round() (progress bool, err error) {
 		return len(st.PostF) != len(st.PreF), nil
 	}
 	st, err := fs.step("cf.tip", fmt.Sprintf("filter=%d block=%d", ft, bt), func() {
+		// Boundary placements (no hook in the client): a chain change lands
+		// right after the k-th block-store read / the k-th all-peer query of
+		// this at-tip round returned.
+		// (In a round that starts from genesis only where the plan says so: a
+		// chain change can only reach the filter tip once there is one, but a
+		// change after the answers arrived can replace a disputed block.)
+		if fs.AtBoundary != nil && (ft > 0 || fs.Plan.BoundaryFromGenesis) {
+			var k int
+			if _, err := fmt.Sscanf(fs.Plan.ReorgAt, "store.read#%d", &k); err == nil {
+				fs.hooked.armAfterRead(k, fs.AtBoundary)
+				defer fs.hooked.armAfterRead(0, nil)
+			} else if _, err := fmt.Sscanf(fs.Plan.ReorgAt, "net.query#%d", &k); err == nil {
+				fs.Net.ArmAfterQuery(k, fs.AtBoundary)
+				defer fs.Net.ArmAfterQuery(0, nil)
+			}
+		}
 		_ = fs.BM.GetUncheckpointedCFHeaders()
 	})
 	if err != nil {
